@@ -206,7 +206,8 @@ theorem runPhasesGen_eq (s : Sess) (t : TaskSpec) : runPhasesGen F P g cfg s t =
       rintro (⟨x, hx, hn⟩ | hn)
       · exact hex' x (by simp [hx]) hn
       · exact hex' _ (by simp) hn
-    simp [executeSteps, runExecSteps, excToRaised, teardownChecks, runTeardown]
+    simp [Generated.executeOrder, Generated.executeOrderFirstResult, runExecChain, executeWrappers, executeGuards, evalCond,
+      executeSteps, runExecSteps, excToRaised, teardownChecks, runTeardown]
     by_cases hd : cfg.dry = true <;> simp [hd]
     by_cases hr : (runBody F t s.w.fs).snd = true <;> simp [hr, hv1]
     by_cases hm : ∃ x, x ∈ t.prods ∧ lookup (runBody F t s.w.fs).fst x = none <;> simp [hm]
